@@ -378,6 +378,74 @@ theorem writeS_ok (p : PF) (full : Bytes) (s : Spec) (str : Bytes) (h : Agrees p
     · have : max s.width t.length - t.length = s.width - t.length := by omega
       simpa [hw, this, List.append_assoc] using a2
 
+/-- the scan keeps at most `limit` bytes and counts at most one code point per byte kept -/
+theorem ustrScan_bound (str : Bytes) (limit : Nat) : ∀ (fuel i cnt last len n : Nat),
+    cnt ≤ i → (0 < cnt → 1 ≤ last ∧ cnt - 1 ≤ i - last ∧ last ≤ i) → i - last ≤ limit →
+    ustrScan str limit fuel i cnt last = some (len, n) → n ≤ len ∧ len ≤ limit := by
+  intro fuel
+  induction fuel with
+  | zero => intro i cnt last len n _ _ _ h; simp [ustrScan] at h
+  | succ f ih =>
+    intro i cnt last len n h1 h2 h3 h
+    unfold ustrScan at h
+    by_cases hgt : i > limit
+    · rw [if_pos hgt] at h
+      simp only [Option.some.injEq, Prod.mk.injEq] at h
+      obtain ⟨rfl, rfl⟩ := h
+      by_cases hc : 0 < cnt
+      · obtain ⟨_, b, _⟩ := h2 hc; exact ⟨b, h3⟩
+      · have : cnt = 0 := by omega
+        subst this; exact ⟨by omega, h3⟩
+    · rw [if_neg hgt] at h
+      by_cases heq : i = limit
+      · rw [if_pos heq] at h
+        simp only [Option.some.injEq, Prod.mk.injEq] at h
+        obtain ⟨rfl, rfl⟩ := h
+        exact ⟨h1, by omega⟩
+      · rw [if_neg heq] at h
+        simp only at h
+        by_cases hl : leadLen (str.getD i 0) = 0
+        · rw [if_pos hl] at h; cases h
+        · rw [if_neg hl] at h
+          exact ih _ _ _ len n (by omega) (fun _ => ⟨by omega, by omega, by omega⟩) (by omega) h
+
+theorem ustrArg_bound (prec : Option Nat) (str t : Bytes) (n : Nat) (h : ustrArg prec str = some (t, n)) :
+    n ≤ t.length := by
+  have hlim : ustrLimit prec str ≤ str.length := by
+    unfold ustrLimit; cases prec <;> simp <;> omega
+  simp only [ustrArg, Option.map_eq_some_iff] at h
+  obtain ⟨⟨len, m⟩, hs, he⟩ := h
+  simp only [Prod.mk.injEq] at he
+  obtain ⟨rfl, rfl⟩ := he
+  have hb := ustrScan_bound str _ _ 0 0 0 len m (by omega) (by omega) (by omega) hs
+  simp only [List.length_take]
+  omega
+
+theorem writeUS_ok (p : PF) (full : Bytes) (s : Spec) (str t : Bytes) (h : Agrees p full)
+    (ht : fmtUStr s str = some t) :
+    ∃ p', writeUS p s str = some p' ∧ p'.cap = p.cap ∧ Agrees p' (full ++ t) ∧ s.width ≤ t.length := by
+  unfold fmtUStr at ht
+  simp only [Option.map_eq_some_iff] at ht
+  obtain ⟨⟨b, n⟩, hu, he⟩ := ht
+  have hn := ustrArg_bound s.prec str b n hu
+  unfold writeUS
+  simp only [hu, Option.bind_eq_bind, Option.bind_some]
+  have hd : max s.width n - n = s.width - n := by omega
+  rw [hd]
+  by_cases hdash : s.flags.dash = true
+  · simp only [hdash, if_true] at he ⊢
+    subst he
+    obtain ⟨p1, e1, c1, a1⟩ := PF.concat_ok p full b h
+    obtain ⟨p2, e2, c2, a2⟩ := PF.pad_ok p1 _ 32 (s.width - n) a1
+    refine ⟨p2, by simp [e1, e2], by rw [c2, c1], by simpa [List.append_assoc] using a2, ?_⟩
+    simp only [List.length_append, List.length_replicate]; omega
+  · simp only [hdash, Bool.false_eq_true, if_false] at he ⊢
+    subst he
+    obtain ⟨p1, e1, c1, a1⟩ := PF.pad_ok p full 32 (s.width - n) h
+    obtain ⟨p2, e2, c2, a2⟩ := PF.concat_ok p1 _ b a1
+    refine ⟨p2, by simp [e1, e2], by rw [c2, c1], by simpa [List.append_assoc] using a2, ?_⟩
+    simp only [List.length_append, List.length_replicate]; omega
+
 /-! ### one conversion -/
 
 /-- the tail of `convert`: padding when the writer produced less than the field width -/
@@ -524,6 +592,20 @@ theorem convert_s (p : PF) (full : Bytes) (s : Spec) (str : Bytes) (h : Agrees p
   have := h.1
   omega
 
+theorem convert_S (p : PF) (full : Bytes) (s : Spec) (str t : Bytes) (h : Agrees p full) (hc : s.conv = 'S')
+    (ht : fmtUStr s str = some t) :
+    ∃ p', convert p s (some (.gstr str)) = some p' ∧ p'.cap = p.cap ∧ Agrees p' (full ++ t) := by
+  obtain ⟨p1, e1, c1, a1, hw⟩ := writeUS_ok p full s str t h ht
+  refine ⟨p1, ?_, c1, a1⟩
+  unfold convert; simp only [hc]; simp [e1]
+  -- the writer already produced at least the field width
+  intro hlt
+  exfalso
+  have hl : p1.length = (full ++ t).length := a1.1
+  rw [List.length_append] at hl
+  have := h.1
+  omega
+
 theorem convert_percent (p : PF) (full : Bytes) (s : Spec) (h : Agrees p full) (hc : s.conv = '%') (hw : s.width = 0) :
     ∃ p', convert p s none = some p' ∧ p'.cap = p.cap ∧ Agrees p' (full ++ [37]) := by
   obtain ⟨p1, e1, c1, a1⟩ := PF.push_ok p full 37 h
@@ -592,6 +674,7 @@ def convText (ft : Spec → Nat → Bytes) (s : Spec) : Option Arg → Option By
       (if s.flags.zero = false ∧ (s.conv = 'p' → s.prec = none) then formatOne s (.int raw) else none)
     else formatOne s (.int raw)
   | some (.str str) => formatOne s (.str str)
+  | some (.gstr str) => formatOne s (.gstr str)
   | some (.dbl bits) => if isFloatConv s.conv then some (ft s bits) else none
 
 theorem convert_ok (p : PF) (full t : Bytes) (s : Spec) (a : Option Arg) (h : Agrees p full)
@@ -614,6 +697,11 @@ theorem convert_ok (p : PF) (full t : Bytes) (s : Spec) (a : Option Arg) (h : Ag
       simp only [convText, formatOne] at ht
       split at ht
       · rename_i hc; cases ht; exact convert_s p full s str h hc
+      · cases ht
+    | gstr str =>
+      simp only [convText, formatOne] at ht
+      split at ht
+      · rename_i hc; exact convert_S p full s str t h hc ht
       · cases ht
     | int raw =>
       simp only [convText] at ht
